@@ -1,6 +1,997 @@
-(* C08 — stub: model not yet built (the property is listed under not_applicable until it is). *)
-From Coq Require Import List ZArith Bool.
+(* C08 — pooled objects of zap and the code that acquires, uses and releases them.
+
+   Modelled (following the Go text, file by file):
+     internal/pool/pool.go            Get = New() or any object put earlier (adversary); Put
+     buffer/pool.go buffer/buffer.go  Pool.Get (Reset; pool = p), Buffer.Free -> pool.put
+     zapcore/json_encoder.go          clone, Clone, resetReflectBuf, encodeReflected, AddReflected,
+                                      OpenNamespace, AppendObject, closeOpenNamespaces, EncodeEntry,
+                                      putJSONEncoder
+     zapcore/console_encoder.go       getSliceEncoder, putSliceEncoder, EncodeEntry, writeContext
+     zapcore/error.go  error.go       errArray.MarshalLogArray with the two errArrayElem pools
+     zapcore/entry.go                 getCheckedEntry, reset, AddCore, After, Write, putCheckedEntry,
+                                      EntryCaller.FullPath
+     zapcore/core.go                  ioCore.Write (sink write, then Free), ioCore.With
+     internal/stacktrace/stack.go     Capture (First / Full with storage growth), Free, Take
+     logger.go                        Logger.check (stack capture, caller, stack text)
+
+   A program that uses pools is a tree of pool interactions ([act]): between two
+   interactions a goroutine only touches objects it owns.  Pooled structs travel by
+   value (with whatever residual field values their last user left); buffers
+   additionally have an identity, because pooled encoders hold POINTERS to buffers
+   (buf, reflectBuf, reflectEnc) and a stale pointer is how a freed buffer could be
+   observed: every access to a buffer that the running operation does not own is a
+   fault ([UseAfterFree]).
+
+   No proofs in this file. *)
+From Coq Require Import List ZArith Bool Arith Lia.
+From Coq.Strings Require Import Byte.
 Import ListNotations.
-From Zap Require Import Base.Wire.
-Definition model (i : sx) : sx := SL [].
-Definition spec (i o : sx) : bool := false.
+From Zap Require Import Base.Wire Enc.Bytes Enc.Decimal Enc.Fields Enc.JsonEnc.
+
+(* ------------------------------------------------------------------ *)
+(* objects                                                            *)
+(* ------------------------------------------------------------------ *)
+Definition id := nat.
+
+(* *EncoderConfig, as far as this property needs it: keys, line ending, console separator.
+   Level/name encoders are the built-in string encoders; the time key is empty. *)
+Record ecfg := {
+  c_msg : bytes; c_lvl : bytes; c_name : bytes; c_caller : bytes; c_stack : bytes;
+  c_le : bytes; c_sep : bytes
+}.
+
+(* buffer.Buffer { bs []byte; pool Pool } *)
+Record bufobj := { b_id : id; b_bs : bytes; b_pool : bool (* pool field set *) }.
+
+(* zapcore.jsonEncoder *)
+Record jenc := {
+  j_cfg : option ecfg;        (* *EncoderConfig *)
+  j_buf : option id;          (* buf *buffer.Buffer *)
+  j_spaced : bool;
+  j_ns : nat;                 (* openNamespaces *)
+  j_rbuf : option id;         (* reflectBuf *)
+  j_renc : option id          (* reflectEnc: a json.Encoder writing to that buffer *)
+}.
+
+(* zapcore.sliceArrayEncoder { elems []interface{} }: the visible elements, as fmt.Fprint prints them *)
+Record slicenc := { s_elems : list bytes }.
+
+(* zapcore.errArrayElem { err error } and zap.errArrayElem { error }: Error() text of the wrapped error *)
+Record errelem := { ee_err : option bytes }.
+
+(* stacktrace.Stack { pcs; frames; storage } *)
+Definition pc := nat.
+Record stack := { k_pcs : list pc; k_frames : option (list pc); k_storage : list pc }.
+
+(* a long-lived encoder held by a core (never pooled): its observable state *)
+Record enc := { e_cfg : ecfg; e_spaced : bool; e_ns : nat; e_buf : bytes }.
+(* an ioCore: encoder, JSON or console, and whether its sink fails *)
+Record core := { co_enc : enc; co_console : bool; co_fail : bool }.
+
+Record entry := {
+  en_lvl : bytes; en_name : bytes; en_msg : bytes; en_stack : bytes;
+  en_caller : option (bytes * Z)      (* Caller.Defined: File, Line *)
+}.
+
+(* zapcore.CheckedEntry *)
+Record centry := {
+  ce_ent : entry;
+  ce_errout : bool;                   (* ErrorOutput != nil *)
+  ce_dirty : bool;
+  ce_after : option nat;              (* CheckWriteHook *)
+  ce_cores : list core
+}.
+
+(* ------------------------------------------------------------------ *)
+(* pools and programs                                                 *)
+(* ------------------------------------------------------------------ *)
+Inductive pid := PJson | PBuf | PSlice | PCE | PErrCore | PErrZap | PStack.
+Definition pty (p : pid) : Type :=
+  match p with
+  | PJson => jenc | PBuf => bufobj | PSlice => slicenc | PCE => centry
+  | PErrCore => errelem | PErrZap => errelem | PStack => stack
+  end.
+
+Inductive fault :=
+| UseAfterFree (i : id)     (* access to a buffer the operation does not own *)
+| DoubleFree (i : id)       (* Free of a buffer the operation does not own *)
+| NilDeref                  (* nil pointer dereference: the call panics *)
+| Diverge.                  (* Capture's growth loop does not terminate *)
+
+Inductive act (A : Type) : Type :=
+| Ret (a : A)
+| Get (p : pid) (k : pty p -> act A)
+| Put (p : pid) (o : pty p) (k : act A)
+| Fail (f : fault).
+Arguments Ret {A} a.
+Arguments Get {A} p k.
+Arguments Put {A} p o k.
+Arguments Fail {A} f.
+
+Fixpoint bind {A B} (m : act A) (f : A -> act B) : act B :=
+  match m with
+  | Ret a => f a
+  | Get p k => Get p (fun o => bind (k o) f)
+  | Put p o k => Put p o (bind k f)
+  | Fail e => Fail e
+  end.
+
+(* what New() allocates; a new buffer gets an identity from the allocator *)
+Definition zero_entry : entry := {| en_lvl := []; en_name := []; en_msg := []; en_stack := []; en_caller := None |}.
+Definition new_jenc : jenc :=
+  {| j_cfg := None; j_buf := None; j_spaced := false; j_ns := 0; j_rbuf := None; j_renc := None |}.
+Definition new_buf (i : id) : bufobj := {| b_id := i; b_bs := []; b_pool := false |}.
+Definition new_slice : slicenc := {| s_elems := [] |}.
+Definition nil_core : core :=
+  {| co_enc := {| e_cfg := {| c_msg := []; c_lvl := []; c_name := []; c_caller := []; c_stack := []; c_le := []; c_sep := [] |};
+                  e_spaced := false; e_ns := 0; e_buf := [] |}; co_console := false; co_fail := false |}.
+Definition new_ce : centry :=   (* cores: make([]Core, 4): four nil cores *)
+  {| ce_ent := zero_entry; ce_errout := false; ce_dirty := false; ce_after := None; ce_cores := repeat nil_core 4 |}.
+Definition new_errelem : errelem := {| ee_err := None |}.
+Definition new_stack : stack := {| k_pcs := []; k_frames := None; k_storage := repeat 0 64 |}.
+
+(* ------------------------------------------------------------------ *)
+(* the state of a running operation: the buffers it owns              *)
+(* ------------------------------------------------------------------ *)
+Definition store := list bufobj.
+Definition M (A : Type) : Type := store -> act (A * store).
+Definition ret {A} (a : A) : M A := fun s => Ret (a, s).
+Definition mbind {A B} (m : M A) (f : A -> M B) : M B :=
+  fun s => bind (m s) (fun r => f (fst r) (snd r)).
+Definition mfail {A} (f : fault) : M A := fun _ => Fail f.
+Notation "x <- m ;; k" := (mbind m (fun x => k)) (at level 61, m at next level, right associativity).
+Notation "m ;;; k" := (mbind m (fun _ => k)) (at level 61, right associativity).
+
+Fixpoint find_buf (i : id) (s : store) : option bufobj :=
+  match s with
+  | [] => None
+  | b :: r => if Nat.eqb (b_id b) i then Some b else find_buf i r
+  end.
+Fixpoint set_buf (i : id) (bs : bytes) (s : store) : store :=
+  match s with
+  | [] => []
+  | b :: r => if Nat.eqb (b_id b) i then {| b_id := i; b_bs := bs; b_pool := b_pool b |} :: r
+              else b :: set_buf i bs r
+  end.
+Fixpoint del_buf (i : id) (s : store) : store :=
+  match s with
+  | [] => []
+  | b :: r => if Nat.eqb (b_id b) i then r else b :: del_buf i r
+  end.
+
+(* pointer dereference of a *buffer.Buffer field *)
+Definition deref (p : option id) : M id :=
+  match p with Some i => ret i | None => mfail NilDeref end.
+Definition buf_read (i : id) : M bytes :=
+  fun s => match find_buf i s with Some b => Ret (b_bs b, s) | None => Fail (UseAfterFree i) end.
+Definition buf_upd (i : id) (f : bytes -> bytes) : M unit :=
+  fun s => match find_buf i s with
+           | Some b => Ret (tt, set_buf i (f (b_bs b)) s)
+           | None => Fail (UseAfterFree i)
+           end.
+(* buffer.Pool.Get: buf := p.p.Get(); buf.Reset(); buf.pool = p *)
+Definition buf_get : M id :=
+  fun s => Get PBuf (fun b => Ret (b_id b, {| b_id := b_id b; b_bs := []; b_pool := true |} :: s)).
+(* Buffer.Free: b.pool.put(b) *)
+Definition buf_free (i : id) : M unit :=
+  fun s => match find_buf i s with
+           | None => Fail (DoubleFree i)
+           | Some b => if b_pool b then Put PBuf b (Ret (tt, del_buf i s)) else Fail NilDeref
+           end.
+Definition getp (p : pid) : M (pty p) := fun s => Get p (fun o => Ret (o, s)).
+Definition putp (p : pid) (o : pty p) : M unit := fun s => Put p o (Ret (tt, s)).
+
+(* ------------------------------------------------------------------ *)
+(* fields, as far as pooling is concerned                             *)
+(* ------------------------------------------------------------------ *)
+(* PRaw covers every scalar Add* (the text is what strconv/time produced);
+   PObj is an ObjectMarshaler script: calls, then nil or an error. *)
+Inductive pf :=
+| PStr (k v : bytes)
+| PRaw (k raw : bytes)
+| PNs (k : bytes)                                  (* zap.Namespace *)
+| PRefl (k : bytes) (r : rv)                       (* zap.Reflect *)
+| PErr (k basic : bytes) (causes : list bytes)     (* zap.Error of an errorGroup: zapcore pool *)
+| PErrs (k : bytes) (es : list bytes)              (* zap.Errors: zap pool *)
+| PObj (k : bytes) (calls : list pf) (ret_err : option bytes).
+
+(* ------------------------------------------------------------------ *)
+(* zapcore/json_encoder.go                                            *)
+(* ------------------------------------------------------------------ *)
+Definition set_ns (j : jenc) (n : nat) : jenc :=
+  {| j_cfg := j_cfg j; j_buf := j_buf j; j_spaced := j_spaced j; j_ns := n; j_rbuf := j_rbuf j; j_renc := j_renc j |}.
+Definition set_refl (j : jenc) (b e : option id) : jenc :=
+  {| j_cfg := j_cfg j; j_buf := j_buf j; j_spaced := j_spaced j; j_ns := j_ns j; j_rbuf := b; j_renc := e |}.
+
+(* the assignments of clone():  clone.EncoderConfig = enc.EncoderConfig; clone.spaced = enc.spaced;
+   clone.openNamespaces = enc.openNamespaces; clone.buf = bufferpool.Get() *)
+Definition clone_assign (e : enc) (b : id) (j : jenc) : jenc :=
+  {| j_cfg := Some (e_cfg e); j_buf := Some b; j_spaced := e_spaced e; j_ns := e_ns e;
+     j_rbuf := j_rbuf j; j_renc := j_renc j |}.
+(* the assignments of putJSONEncoder *)
+Definition put_clear (j : jenc) : jenc :=
+  {| j_cfg := None; j_buf := None; j_spaced := false; j_ns := 0; j_rbuf := None; j_renc := None |}.
+
+Definition clone (e : enc) : M jenc :=
+  j <- getp PJson ;;
+  (* the three scalar assignments happen before bufferpool.Get(); they do not interact *)
+  b <- buf_get ;;
+  ret (clone_assign e b j).
+
+(* Clone: clone.buf.Write(enc.buf.Bytes()) *)
+Definition Clone (e : enc) : M jenc :=
+  j <- clone e ;;
+  b <- deref (j_buf j) ;;
+  buf_upd b (fun bs => bs ++ e_buf e) ;;;
+  ret j.
+
+Definition putJSONEncoder (j : jenc) : M unit :=
+  (match j_rbuf j with Some r => buf_free r | None => ret tt end) ;;;
+  putp PJson (put_clear j).
+
+(* enc.buf.<append> *)
+Definition jbuf (j : jenc) (f : bytes -> bytes) : M unit :=
+  b <- deref (j_buf j) ;; buf_upd b f.
+
+Definition add_string (j : jenc) (k v : bytes) : M unit :=
+  jbuf j (fun b => ap_string (j_spaced j) v (add_key (j_spaced j) k b)).
+
+(* closeOpenNamespaces *)
+Definition close_ns (j : jenc) : M jenc :=
+  jbuf j (fun b => b ++ repeat RBRACE (j_ns j)) ;;; ret (set_ns j 0).
+
+(* TrimNewline *)
+Definition trim_nl (b : bytes) : bytes :=
+  match rev b with
+  | x :: r => if Byte.eqb x NL then rev r else b
+  | [] => b
+  end.
+
+(* resetReflectBuf + encodeReflected: Some bytes, or the encoder's error *)
+Definition encode_reflected (j : jenc) (r : rv) : M (jenc * sum bytes bytes) :=
+  match r with
+  | RNil => ret (j, inl s_null)
+  | _ =>
+      j1 <- (match j_rbuf j with
+             | None => b <- buf_get ;; ret (set_refl j (Some b) (Some b))   (* NewReflectedEncoder(enc.reflectBuf) *)
+             | Some b => buf_upd b (fun _ => []) ;;; ret j                  (* enc.reflectBuf.Reset() *)
+             end) ;;
+      match r with
+      | RErr msg => ret (j1, inr msg)          (* json.Encoder writes nothing when it fails *)
+      | ROk txt =>
+          w <- deref (j_renc j1) ;;
+          buf_upd w (fun bs => bs ++ txt ++ [NL]) ;;;
+          rb <- deref (j_rbuf j1) ;;
+          buf_upd rb trim_nl ;;;
+          out <- buf_read rb ;;
+          ret (j1, inl out)
+      | RNil => ret (j1, inl s_null)
+      end
+  end.
+
+(* AppendObject's bracket around a marshaler: old := ns; ns = 0; sep; '{'; ...; '}'; closeOpenNamespaces; ns = old *)
+Definition obj_open (j : jenc) : M jenc :=
+  jbuf j (fun b => add_sep (j_spaced j) b ++ [LBRACE]) ;;; ret (set_ns j 0).
+Definition obj_close (old : nat) (j : jenc) : M jenc :=
+  jbuf j (fun b => b ++ [RBRACE]) ;;;
+  j1 <- close_ns j ;;
+  ret (set_ns j1 old).
+
+(* zapcore errArray.MarshalLogArray: per non-nil error  el := newErrArrayElem(err); arr.AppendObject(el); el.Free() *)
+Fixpoint err_array_core (j : jenc) (es : list bytes) : M jenc :=
+  match es with
+  | [] => ret j
+  | e :: r =>
+      el <- getp PErrCore ;;
+      let el1 : errelem := {| ee_err := Some e |} in                  (* e.err = err *)
+      j1 <- obj_open j ;;
+      (* el.MarshalLogObject: encodeError("error", el.err, enc) *)
+      j2 <- (match ee_err el1 with
+             | Some m => add_string j1 s_error m ;;; ret j1
+             | None => mfail NilDeref
+             end) ;;
+      j3 <- obj_close (j_ns j) j2 ;;
+      putp PErrCore {| ee_err := None |} ;;;                           (* e.err = nil; Put *)
+      err_array_core j3 r
+  end.
+(* zap errArray.MarshalLogArray: elem := Get(); elem.error = errs[i]; AppendObject(elem); elem.error = nil; Put *)
+Fixpoint err_array_zap (j : jenc) (es : list bytes) : M jenc :=
+  match es with
+  | [] => ret j
+  | e :: r =>
+      el <- getp PErrZap ;;
+      let el1 : errelem := {| ee_err := Some e |} in
+      j1 <- obj_open j ;;
+      (* Error(e.error).AddTo(enc): a nil error is zap.Skip() *)
+      j2 <- (match ee_err el1 with
+             | Some m => add_string j1 s_error m ;;; ret j1
+             | None => ret j1
+             end) ;;
+      j3 <- obj_close (j_ns j) j2 ;;
+      putp PErrZap {| ee_err := None |} ;;;
+      err_array_zap j3 r
+  end.
+
+(* AppendArray's bracket *)
+Definition arr_open (j : jenc) : M unit := jbuf j (fun b => add_sep (j_spaced j) b ++ [LBRACK]).
+Definition arr_close (j : jenc) : M unit := jbuf j (fun b => b ++ [RBRACK]).
+Definition add_key_only (j : jenc) (k : bytes) : M unit := jbuf j (fun b => add_key (j_spaced j) k b).
+
+(* Field.AddTo on a jsonEncoder; a marshaler/reflection error becomes the field key+"Error" *)
+Fixpoint add_field (f : pf) (j : jenc) {struct f} : M jenc :=
+  match f with
+  | PStr k v => add_string j k v ;;; ret j
+  | PRaw k raw => jbuf j (fun b => ap_raw (j_spaced j) raw (add_key (j_spaced j) k b)) ;;; ret j
+  | PNs k => jbuf j (fun b => add_key (j_spaced j) k b ++ [LBRACE]) ;;; ret (set_ns j (S (j_ns j)))
+  | PRefl k r =>
+      (* AddReflected: encode first; then addKey; then buf.Write(valueBytes) *)
+      res <- encode_reflected j r ;;
+      let j1 := fst res in
+      match snd res with
+      | inl txt => jbuf j1 (fun b => add_key (j_spaced j1) k b ++ txt) ;;; ret j1
+      | inr msg => add_string j1 (k ++ s_Error) msg ;;; ret j1
+      end
+  | PErr k basic causes =>
+      (* encodeError: AddString(key, basic); AddArray(key+"Causes", errArray(causes)) *)
+      add_string j k basic ;;;
+      add_key_only j (k ++ s_Causes) ;;;
+      arr_open j ;;;
+      j1 <- err_array_core j causes ;;
+      arr_close j1 ;;;
+      ret j1
+  | PErrs k es =>
+      add_key_only j k ;;;
+      arr_open j ;;;
+      j1 <- err_array_zap j es ;;
+      arr_close j1 ;;;
+      ret j1
+  | PObj k calls ret_err =>
+      add_key_only j k ;;;
+      j1 <- obj_open j ;;
+      j2 <- (fix go (l : list pf) (j : jenc) {struct l} : M jenc :=
+               match l with
+               | [] => ret j
+               | g :: r => j' <- add_field g j ;; go r j'
+               end) calls j1 ;;
+      j3 <- obj_close (j_ns j) j2 ;;
+      match ret_err with
+      | Some msg => add_string j3 (k ++ s_Error) msg ;;; ret j3
+      | None => ret j3
+      end
+  end.
+
+Fixpoint add_fields (fs : list pf) (j : jenc) : M jenc :=
+  match fs with
+  | [] => ret j
+  | f :: r => j' <- add_field f j ;; add_fields r j'
+  end.
+
+(* EntryCaller.FullPath: a pooled buffer, freed before returning *)
+Definition full_path (file : bytes) (line : Z) : M bytes :=
+  b <- buf_get ;;
+  buf_upd b (fun bs => bs ++ file ++ [COLON] ++ print_Z line) ;;;
+  s <- buf_read b ;;
+  buf_free b ;;;
+  ret s.
+
+Definition cfg_of (j : jenc) : M ecfg :=
+  match j_cfg j with Some c => ret c | None => mfail NilDeref end.
+
+(* jsonEncoder.EncodeEntry: returns the buffer handed to the caller *)
+Definition json_encode_entry (e : enc) (ent : entry) (fs : list pf) : M id :=
+  final <- clone e ;;
+  jbuf final (fun b => b ++ [LBRACE]) ;;;
+  c <- cfg_of final ;;
+  (if negb (is_nil (c_lvl c)) then add_string final (c_lvl c) (en_lvl ent) else ret tt) ;;;
+  (if negb (is_nil (en_name ent)) && negb (is_nil (c_name c)) then add_string final (c_name c) (en_name ent) else ret tt) ;;;
+  (match en_caller ent with
+   | Some (file, line) =>
+       if negb (is_nil (c_caller c)) then
+         p <- full_path file line ;; add_string final (c_caller c) p    (* FullCallerEncoder: caller.String() *)
+       else ret tt
+   | None => ret tt
+   end) ;;;
+  (if negb (is_nil (c_msg c)) then add_string final (c_msg (e_cfg e)) (en_msg ent) else ret tt) ;;;   (* addKey(enc.MessageKey) *)
+  (if negb (is_nil (e_buf e)) then jbuf final (fun b => add_sep (j_spaced final) b ++ e_buf e) else ret tt) ;;;
+  final1 <- add_fields fs final ;;
+  final2 <- close_ns final1 ;;
+  (if negb (is_nil (en_stack ent)) && negb (is_nil (c_stack c)) then add_string final2 (c_stack c) (en_stack ent) else ret tt) ;;;
+  jbuf final2 (fun b => b ++ [RBRACE] ++ c_le c) ;;;
+  r <- deref (j_buf final2) ;;          (* ret := final.buf *)
+  putJSONEncoder final2 ;;;
+  ret r.
+
+(* ------------------------------------------------------------------ *)
+(* zapcore/console_encoder.go                                         *)
+(* ------------------------------------------------------------------ *)
+Fixpoint join_cols (sep : bytes) (first : bool) (cols : list bytes) : bytes :=
+  match cols with
+  | [] => []
+  | x :: r => (if first then [] else sep) ++ x ++ join_cols sep false r
+  end.
+
+(* writeContext: the deferred function frees context.buf, then putJSONEncoder(context) *)
+Definition write_context (e : enc) (line : id) (fs : list pf) : M unit :=
+  context <- Clone e ;;
+  c1 <- add_fields fs context ;;
+  c2 <- close_ns c1 ;;
+  cb <- deref (j_buf c2) ;;
+  txt <- buf_read cb ;;
+  (if is_nil txt then ret tt
+   else buf_upd line (fun b => (if is_nil b then b else b ++ c_sep (e_cfg e)) ++ [LBRACE] ++ txt ++ [RBRACE])) ;;;
+  buf_free cb ;;;
+  putJSONEncoder c2.
+
+Definition console_encode_entry (e : enc) (ent : entry) (fs : list pf) : M id :=
+  let c := e_cfg e in
+  line <- buf_get ;;
+  arr <- getp PSlice ;;
+  (* EncodeLevel, EncodeName, EncodeCaller append to arr.elems *)
+  let el1 := if negb (is_nil (c_lvl c)) then s_elems arr ++ [en_lvl ent] else s_elems arr in
+  let el2 := if negb (is_nil (en_name ent)) && negb (is_nil (c_name c)) then el1 ++ [en_name ent] else el1 in
+  el3 <- (match en_caller ent with
+          | Some (file, line_no) =>
+              if negb (is_nil (c_caller c)) then p <- full_path file line_no ;; ret (el2 ++ [p]) else ret el2
+          | None => ret el2
+          end) ;;
+  buf_upd line (fun b => b ++ join_cols (c_sep c) true el3) ;;;
+  putp PSlice {| s_elems := [] |} ;;;                                  (* e.elems = e.elems[:0]; Put *)
+  (if negb (is_nil (c_msg c))
+   then buf_upd line (fun b => (if is_nil b then b else b ++ c_sep c) ++ en_msg ent) else ret tt) ;;;
+  write_context e line fs ;;;
+  (if negb (is_nil (en_stack ent)) && negb (is_nil (c_stack c))
+   then buf_upd line (fun b => b ++ [NL] ++ en_stack ent) else ret tt) ;;;
+  buf_upd line (fun b => b ++ c_le c) ;;;
+  ret line.
+
+(* ------------------------------------------------------------------ *)
+(* zapcore/core.go                                                    *)
+(* ------------------------------------------------------------------ *)
+(* ioCore.Write: encode, out.Write(buf.Bytes()), buf.Free(); Some bytes = what reached the sink *)
+Definition core_write (co : core) (ent : entry) (fs : list pf) : M bytes :=
+  b <- (if co_console co then console_encode_entry (co_enc co) ent fs
+        else json_encode_entry (co_enc co) ent fs) ;;
+  out <- buf_read b ;;
+  buf_free b ;;;
+  ret out.
+
+(* ioCore.With: clone.enc = c.enc.Clone(); addFields(clone.enc, fields).  The new encoder (and
+   its buffers) live as long as the derived logger: nothing is returned to a pool. *)
+Definition core_with (e : enc) (fs : list pf) : M enc :=
+  j <- Clone e ;;
+  j1 <- add_fields fs j ;;
+  b <- deref (j_buf j1) ;;
+  bs <- buf_read b ;;
+  c <- cfg_of j1 ;;
+  ret {| e_cfg := c; e_spaced := j_spaced j1; e_ns := j_ns j1; e_buf := bs |}.
+
+(* ------------------------------------------------------------------ *)
+(* internal/stacktrace/stack.go                                       *)
+(* ------------------------------------------------------------------ *)
+(* runtime.Callers(skip, buf) on a goroutine whose (already skipped) call stack is cs:
+   fills min(len cs, len buf) entries *)
+Definition callers (cs buf : list pc) : nat * list pc :=
+  let n := Nat.min (length cs) (length buf) in (n, firstn n cs ++ skipn n buf).
+
+(* for numFrames == len(pcs) { pcs = make([]uintptr, len(pcs)*2); numFrames = Callers(pcs) } *)
+Fixpoint grow (fuel : nat) (cs pcs : list pc) (n : nat) : option (list pc * nat) :=
+  if Nat.eqb n (length pcs) then
+    match fuel with
+    | O => None
+    | S f => let pcs' := repeat 0 (length pcs * 2) in
+             let '(n', filled) := callers cs pcs' in grow f cs filled n'
+    end
+  else Some (pcs, n).
+
+Definition capture_into (cs : list pc) (full : bool) (st : stack) : option stack :=
+  if full then
+    let '(n, filled) := callers cs (k_storage st) in           (* stack.pcs = stack.storage *)
+    match grow (S (length cs)) cs filled n with
+    | None => None
+    | Some (pcs, n') =>                                          (* storage = pcs; pcs = pcs[:numFrames] *)
+        Some {| k_pcs := firstn n' pcs; k_frames := Some (firstn n' pcs); k_storage := pcs |}
+    end
+  else
+    let '(n, filled) := callers cs (firstn 1 (k_storage st)) in  (* stack.pcs = stack.storage[:1] *)
+    Some {| k_pcs := firstn n filled; k_frames := Some (firstn n filled);
+            k_storage := filled ++ skipn 1 (k_storage st) |}.
+
+Definition capture (cs : list pc) (full : bool) : M stack :=
+  st <- getp PStack ;;
+  match capture_into cs full st with
+  | Some st' => ret st'
+  | None => mfail Diverge
+  end.
+(* Free: st.frames = nil; st.pcs = nil; Put *)
+Definition stack_free (st : stack) : M unit :=
+  putp PStack {| k_pcs := []; k_frames := None; k_storage := k_storage st |}.
+
+(* Formatter.FormatFrame: function \n \t file : line  -- symbolisation is an oracle; a frame prints as its pc *)
+Definition fmt_frame (nonempty : bool) (p : pc) : bytes :=
+  (if nonempty then [NL] else []) ++ print_Z (Z.of_nat p) ++ [NL; TAB] ++ print_Z (Z.of_nat p).
+(* FormatStack: for frame, more := Next(); more; ... -- the last frame is dropped *)
+Fixpoint fmt_stack (nonempty : bool) (fr : list pc) : bytes :=
+  match fr with
+  | [] => []
+  | [_] => []
+  | p :: r => fmt_frame nonempty p ++ fmt_stack true r
+  end.
+
+(* stacktrace.Take (zap.Stack / StackSkip) *)
+Definition take_stack (cs : list pc) : M bytes :=
+  st <- capture cs true ;;
+  b <- buf_get ;;
+  (match k_frames st with
+   | Some fr => buf_upd b (fun bs => bs ++ fmt_stack false fr)
+   | None => mfail NilDeref
+   end) ;;;
+  s <- buf_read b ;;
+  buf_free b ;;;           (* deferred: buffer.Free(), then stack.Free() *)
+  stack_free st ;;;
+  ret s.
+
+(* ------------------------------------------------------------------ *)
+(* zapcore/entry.go and logger.go                                     *)
+(* ------------------------------------------------------------------ *)
+(* reset() *)
+Definition ce_reset (ce : centry) : centry :=
+  {| ce_ent := zero_entry; ce_errout := false; ce_dirty := false; ce_after := None; ce_cores := [] |}.
+Definition get_checked_entry : M centry := ce <- getp PCE ;; ret (ce_reset ce).
+
+(* what one logging call makes observable *)
+Inductive event :=
+| SinkWrite (co : nat) (b : bytes)     (* the n-th core of the entry wrote these bytes *)
+| ErrOut                               (* internal error written to ErrorOutput *)
+| Hook (h : nat)                       (* CheckWriteHook fired *)
+| Reuse.                               (* "Unsafe CheckedEntry re-use" *)
+
+Fixpoint write_cores (n : nat) (cores : list core) (ent : entry) (fs : list pf) : M (list event * bool) :=
+  match cores with
+  | [] => ret ([], false)
+  | co :: r =>
+      out <- core_write co ent fs ;;
+      rest <- write_cores (S n) r ent fs ;;
+      ret ((if co_fail co then [] else [SinkWrite n out]) ++ fst rest, co_fail co || snd rest)
+  end.
+
+(* CheckedEntry.Write *)
+Definition ce_write (ce : centry) (fs : list pf) : M (list event) :=
+  if ce_dirty ce then ret (if ce_errout ce then [Reuse] else [])
+  else
+    r <- write_cores 0 (ce_cores ce) (ce_ent ce) fs ;;
+    let evs := fst r ++ (if snd r && ce_errout ce then [ErrOut] else []) ++
+               (match ce_after ce with Some h => [Hook h] | None => [] end) in
+    putp PCE {| ce_ent := ce_ent ce; ce_errout := ce_errout ce; ce_dirty := true;
+                ce_after := ce_after ce; ce_cores := ce_cores ce |} ;;;
+    ret evs.
+
+Definition set_ent (ce : centry) (e : entry) : centry :=
+  {| ce_ent := e; ce_errout := ce_errout ce; ce_dirty := ce_dirty ce; ce_after := ce_after ce; ce_cores := ce_cores ce |}.
+
+(* a logger: enabled cores (multiCore.Check adds each), terminal hook of the level, caller/stack options *)
+Record logger := {
+  l_cores : list core; l_hook : option nat; l_errout : bool;
+  l_caller : bool; l_stack : bool
+}.
+
+(* Logger.check + CheckedEntry.Write.  cs = the goroutine's call stack at the call. *)
+Definition log_call (lg : logger) (ent : entry) (cs : list pc) (fs : list pf) : M (list event) :=
+  match l_cores lg, l_hook lg with
+  | [], None => ret []                                         (* ce == nil: nothing happens *)
+  | _, _ =>
+      ce0 <- get_checked_entry ;;                                (* first AddCore / After: getCheckedEntry(); ce.Entry = ent *)
+      let ce1 := {| ce_ent := ent; ce_errout := ce_errout ce0; ce_dirty := ce_dirty ce0;
+                    ce_after := l_hook lg; ce_cores := ce_cores ce0 ++ l_cores lg |} in
+      match l_cores lg with
+      | [] => ce_write ce1 fs                                    (* !willWrite: terminal behaviour only *)
+      | _ =>
+          let ce2 := {| ce_ent := ce_ent ce1; ce_errout := l_errout lg; ce_dirty := ce_dirty ce1;
+                        ce_after := ce_after ce1; ce_cores := ce_cores ce1 |} in
+          if negb (l_caller lg) && negb (l_stack lg) then ce_write ce2 fs
+          else
+            st <- capture cs (l_stack lg) ;;
+            match k_frames st with
+            | None => mfail NilDeref
+            | Some fr =>
+                match fr with
+                | [] => stack_free st ;;; ce_write ce2 fs          (* stack.Count() == 0 *)
+                | frame :: more =>
+                    let e1 := ce_ent ce2 in
+                    let e2 := if l_caller lg
+                              then {| en_lvl := en_lvl e1; en_name := en_name e1; en_msg := en_msg e1; en_stack := en_stack e1;
+                                      en_caller := Some (print_Z (Z.of_nat frame), Z.of_nat frame) |}
+                              else e1 in
+                    e3 <- (if l_stack lg then
+                             b <- buf_get ;;
+                             buf_upd b (fun bs => bs ++ fmt_frame false frame ++
+                                                  (if is_nil more then [] else fmt_stack true more)) ;;;
+                             s <- buf_read b ;;
+                             buf_free b ;;;
+                             ret {| en_lvl := en_lvl e2; en_name := en_name e2; en_msg := en_msg e2; en_stack := s;
+                                    en_caller := en_caller e2 |}
+                           else ret e2) ;;
+                    stack_free st ;;;                              (* deferred stack.Free() *)
+                    ce_write (set_ent ce2 e3) fs
+                end
+            end
+      end
+  end.
+
+(* ================================================================== *)
+(* specification: what each operation produces, as a function of its  *)
+(* inputs alone (no pools, no buffers, no identities)                 *)
+(* ================================================================== *)
+Definition pstate := (bytes * nat)%type.     (* bytes written so far, open namespaces *)
+
+Definition p_add_string (sp : bool) (k v : bytes) (b : bytes) : bytes := ap_string sp v (add_key sp k b).
+Definition p_close (s : pstate) : pstate := (fst s ++ repeat RBRACE (snd s), 0).
+Definition p_obj_open (sp : bool) (s : pstate) : pstate := (add_sep sp (fst s) ++ [LBRACE], 0).
+Definition p_obj_close (old : nat) (s : pstate) : pstate := (fst (p_close (fst s ++ [RBRACE], snd s)), old).
+
+Fixpoint p_err_array (sp : bool) (some_only : bool) (es : list bytes) (s : pstate) : pstate :=
+  match es with
+  | [] => s
+  | e :: r =>
+      let s1 := p_obj_open sp s in
+      let s2 := (p_add_string sp s_error e (fst s1), snd s1) in
+      p_err_array sp some_only r (p_obj_close (snd s) s2)
+  end.
+
+Fixpoint p_field (sp : bool) (f : pf) (s : pstate) {struct f} : pstate :=
+  match f with
+  | PStr k v => (p_add_string sp k v (fst s), snd s)
+  | PRaw k raw => (ap_raw sp raw (add_key sp k (fst s)), snd s)
+  | PNs k => (add_key sp k (fst s) ++ [LBRACE], S (snd s))
+  | PRefl k r =>
+      match r with
+      | RNil => (add_key sp k (fst s) ++ s_null, snd s)
+      | ROk txt => (add_key sp k (fst s) ++ txt, snd s)
+      | RErr msg => (p_add_string sp (k ++ s_Error) msg (fst s), snd s)
+      end
+  | PErr k basic causes =>
+      let b1 := p_add_string sp k basic (fst s) in
+      let b2 := add_sep sp (add_key sp (k ++ s_Causes) b1) ++ [LBRACK] in
+      let s3 := p_err_array sp true causes (b2, snd s) in
+      (fst s3 ++ [RBRACK], snd s3)
+  | PErrs k es =>
+      let b2 := add_sep sp (add_key sp k (fst s)) ++ [LBRACK] in
+      let s3 := p_err_array sp true es (b2, snd s) in
+      (fst s3 ++ [RBRACK], snd s3)
+  | PObj k calls ret_err =>
+      let s1 := p_obj_open sp (add_key sp k (fst s), snd s) in
+      let s2 := (fix go (l : list pf) (s : pstate) {struct l} : pstate :=
+                   match l with [] => s | g :: r => go r (p_field sp g s) end) calls s1 in
+      let s3 := p_obj_close (snd s) s2 in
+      match ret_err with
+      | Some msg => (p_add_string sp (k ++ s_Error) msg (fst s3), snd s3)
+      | None => s3
+      end
+  end.
+Fixpoint p_fields (sp : bool) (fs : list pf) (s : pstate) : pstate :=
+  match fs with [] => s | f :: r => p_fields sp r (p_field sp f s) end.
+
+Definition p_path (file : bytes) (line : Z) : bytes := file ++ [COLON] ++ print_Z line.
+
+Definition p_json_line (e : enc) (ent : entry) (fs : list pf) : bytes :=
+  let c := e_cfg e in
+  let sp := e_spaced e in
+  let b0 := [LBRACE] in
+  let b1 := if negb (is_nil (c_lvl c)) then p_add_string sp (c_lvl c) (en_lvl ent) b0 else b0 in
+  let b2 := if negb (is_nil (en_name ent)) && negb (is_nil (c_name c)) then p_add_string sp (c_name c) (en_name ent) b1 else b1 in
+  let b3 := match en_caller ent with
+            | Some (file, line) =>
+                if negb (is_nil (c_caller c)) then p_add_string sp (c_caller c) (p_path file line) b2 else b2
+            | None => b2
+            end in
+  let b4 := if negb (is_nil (c_msg c)) then p_add_string sp (c_msg c) (en_msg ent) b3 else b3 in
+  let b5 := if negb (is_nil (e_buf e)) then add_sep sp b4 ++ e_buf e else b4 in
+  let s6 := p_close (p_fields sp fs (b5, e_ns e)) in
+  let b7 := if negb (is_nil (en_stack ent)) && negb (is_nil (c_stack c)) then p_add_string sp (c_stack c) (en_stack ent) (fst s6) else fst s6 in
+  b7 ++ [RBRACE] ++ c_le c.
+
+Definition p_sep (sep b : bytes) : bytes := if is_nil b then b else b ++ sep.
+
+Definition p_console_line (e : enc) (ent : entry) (fs : list pf) : bytes :=
+  let c := e_cfg e in
+  let el1 := if negb (is_nil (c_lvl c)) then [en_lvl ent] else [] in
+  let el2 := if negb (is_nil (en_name ent)) && negb (is_nil (c_name c)) then el1 ++ [en_name ent] else el1 in
+  let el3 := match en_caller ent with
+             | Some (file, line) => if negb (is_nil (c_caller c)) then el2 ++ [p_path file line] else el2
+             | None => el2
+             end in
+  let l1 := join_cols (c_sep c) true el3 in
+  let l2 := if negb (is_nil (c_msg c)) then p_sep (c_sep c) l1 ++ en_msg ent else l1 in
+  let ctx := fst (p_close (p_fields (e_spaced e) fs (e_buf e, e_ns e))) in
+  let l3 := if is_nil ctx then l2 else p_sep (c_sep c) l2 ++ [LBRACE] ++ ctx ++ [RBRACE] in
+  let l4 := if negb (is_nil (en_stack ent)) && negb (is_nil (c_stack c)) then l3 ++ [NL] ++ en_stack ent else l3 in
+  l4 ++ c_le c.
+
+Definition p_core_line (co : core) (ent : entry) (fs : list pf) : bytes :=
+  if co_console co then p_console_line (co_enc co) ent fs else p_json_line (co_enc co) ent fs.
+
+Definition p_with (e : enc) (fs : list pf) : enc :=
+  let s := p_fields (e_spaced e) fs (e_buf e, e_ns e) in
+  {| e_cfg := e_cfg e; e_spaced := e_spaced e; e_ns := snd s; e_buf := fst s |}.
+
+Definition p_take (cs : list pc) : bytes := fmt_stack false cs.
+
+Fixpoint p_write_cores (n : nat) (cores : list core) (ent : entry) (fs : list pf) : list event * bool :=
+  match cores with
+  | [] => ([], false)
+  | co :: r =>
+      let rest := p_write_cores (S n) r ent fs in
+      ((if co_fail co then [] else [SinkWrite n (p_core_line co ent fs)]) ++ fst rest, co_fail co || snd rest)
+  end.
+
+(* the entry a logging call writes: the caller and the stack text come from the goroutine's own
+   call stack; every enabled core of THIS logger writes it once; the level's hook fires once *)
+Definition p_log_entry (lg : logger) (ent : entry) (cs : list pc) : entry :=
+  match l_cores lg with
+  | [] => ent
+  | _ =>
+      if negb (l_caller lg) && negb (l_stack lg) then ent
+      else
+        let fr := if l_stack lg then cs else firstn 1 cs in
+        match fr with
+        | [] => ent
+        | frame :: more =>
+            {| en_lvl := en_lvl ent; en_name := en_name ent; en_msg := en_msg ent;
+               en_stack := if l_stack lg
+                           then fmt_frame false frame ++ (if is_nil more then [] else fmt_stack true more)
+                           else en_stack ent;
+               en_caller := if l_caller lg then Some (print_Z (Z.of_nat frame), Z.of_nat frame) else en_caller ent |}
+        end
+  end.
+Definition p_log (lg : logger) (ent : entry) (cs : list pc) (fs : list pf) : list event :=
+  match l_cores lg, l_hook lg with
+  | [], None => []
+  | _, _ =>
+      let r := p_write_cores 0 (l_cores lg) (p_log_entry lg ent cs) fs in
+      fst r ++ (if snd r && (match l_cores lg with [] => false | _ => l_errout lg end) then [ErrOut] else []) ++
+      (match l_hook lg with Some h => [Hook h] | None => [] end)
+  end.
+
+(* ================================================================== *)
+(* operations of a history                                            *)
+(* ================================================================== *)
+Inductive op :=
+| OWrite (co : core) (ent : entry) (fs : list pf)               (* Core.Write *)
+| OWith (e : enc) (fs : list pf)                                (* Core.With / Logger.With *)
+| OLog (lg : logger) (ent : entry) (cs : list pc) (fs : list pf)  (* Logger.Info ... : check + Write *)
+| OTake (cs : list pc).                                         (* zap.Stack *)
+
+Inductive out := OutBytes (b : bytes) | OutEnc (e : enc) | OutEvents (l : list event).
+
+Definition run_m {A} (m : M A) (f : A -> out) : act out := bind (m []) (fun r => Ret (f (fst r))).
+
+Definition op_prog (o : op) : act out :=
+  match o with
+  | OWrite co ent fs => run_m (core_write co ent fs) OutBytes
+  | OWith e fs => run_m (core_with e fs) OutEnc
+  | OLog lg ent cs fs => run_m (log_call lg ent cs fs) OutEvents
+  | OTake cs => run_m (take_stack cs) OutBytes
+  end.
+
+(* the specification of an operation: a function of the operation alone *)
+Definition op_spec (o : op) : out :=
+  match o with
+  | OWrite co ent fs => OutBytes (p_core_line co ent fs)
+  | OWith e fs => OutEnc (p_with e fs)
+  | OLog lg ent cs fs => OutEvents (p_log lg ent cs fs)
+  | OTake cs => OutBytes (p_take cs)
+  end.
+
+(* ================================================================== *)
+(* the pools, with an adversary choosing what Get returns             *)
+(* ================================================================== *)
+Record pools := {
+  pl_json : list jenc; pl_buf : list bufobj; pl_slice : list slicenc; pl_ce : list centry;
+  pl_errc : list errelem; pl_errz : list errelem; pl_stack : list stack
+}.
+Definition no_pools : pools :=
+  {| pl_json := []; pl_buf := []; pl_slice := []; pl_ce := []; pl_errc := []; pl_errz := []; pl_stack := [] |}.
+Definition pool_get (P : pools) (p : pid) : list (pty p) :=
+  match p with
+  | PJson => pl_json P | PBuf => pl_buf P | PSlice => pl_slice P | PCE => pl_ce P
+  | PErrCore => pl_errc P | PErrZap => pl_errz P | PStack => pl_stack P
+  end.
+Definition pool_set (P : pools) (p : pid) : list (pty p) -> pools :=
+  match p with
+  | PJson => fun l => {| pl_json := l; pl_buf := pl_buf P; pl_slice := pl_slice P; pl_ce := pl_ce P; pl_errc := pl_errc P; pl_errz := pl_errz P; pl_stack := pl_stack P |}
+  | PBuf => fun l => {| pl_json := pl_json P; pl_buf := l; pl_slice := pl_slice P; pl_ce := pl_ce P; pl_errc := pl_errc P; pl_errz := pl_errz P; pl_stack := pl_stack P |}
+  | PSlice => fun l => {| pl_json := pl_json P; pl_buf := pl_buf P; pl_slice := l; pl_ce := pl_ce P; pl_errc := pl_errc P; pl_errz := pl_errz P; pl_stack := pl_stack P |}
+  | PCE => fun l => {| pl_json := pl_json P; pl_buf := pl_buf P; pl_slice := pl_slice P; pl_ce := l; pl_errc := pl_errc P; pl_errz := pl_errz P; pl_stack := pl_stack P |}
+  | PErrCore => fun l => {| pl_json := pl_json P; pl_buf := pl_buf P; pl_slice := pl_slice P; pl_ce := pl_ce P; pl_errc := l; pl_errz := pl_errz P; pl_stack := pl_stack P |}
+  | PErrZap => fun l => {| pl_json := pl_json P; pl_buf := pl_buf P; pl_slice := pl_slice P; pl_ce := pl_ce P; pl_errc := pl_errc P; pl_errz := l; pl_stack := pl_stack P |}
+  | PStack => fun l => {| pl_json := pl_json P; pl_buf := pl_buf P; pl_slice := pl_slice P; pl_ce := pl_ce P; pl_errc := pl_errc P; pl_errz := pl_errz P; pl_stack := l |}
+  end.
+
+(* the shared state: pools + the allocator's next buffer identity *)
+Record shared := { sh_pools : pools; sh_next : id }.
+Definition sh_init : shared := {| sh_pools := no_pools; sh_next := 0 |}.
+
+Definition alloc (p : pid) (i : id) : pty p :=
+  match p with
+  | PJson => new_jenc | PBuf => new_buf i | PSlice => new_slice | PCE => new_ce
+  | PErrCore => new_errelem | PErrZap => new_errelem | PStack => new_stack
+  end.
+
+Fixpoint remove_nth {A} (n : nat) (l : list A) : list A :=
+  match n, l with
+  | _, [] => []
+  | O, _ :: r => r
+  | S m, x :: r => x :: remove_nth m r
+  end.
+
+(* sync.Pool.Get under adversary choice c: 0 = New(); n+1 = the n-th pooled object, if there is one *)
+Definition sh_get (sh : shared) (p : pid) (c : nat) : pty p * shared :=
+  match c with
+  | S n =>
+      match nth_error (pool_get (sh_pools sh) p) n with
+      | Some o => (o, {| sh_pools := pool_set (sh_pools sh) p (remove_nth n (pool_get (sh_pools sh) p)); sh_next := sh_next sh |})
+      | None => (alloc p (sh_next sh), {| sh_pools := sh_pools sh; sh_next := S (sh_next sh) |})
+      end
+  | O => (alloc p (sh_next sh), {| sh_pools := sh_pools sh; sh_next := S (sh_next sh) |})
+  end.
+Definition sh_put (sh : shared) (p : pid) (o : pty p) : shared :=
+  {| sh_pools := pool_set (sh_pools sh) p (o :: pool_get (sh_pools sh) p); sh_next := sh_next sh |}.
+(* a garbage collection empties every pool (twice, in reality: victim caches) *)
+Definition sh_gc (sh : shared) : shared := {| sh_pools := no_pools; sh_next := sh_next sh |}.
+
+(* run a program to completion, the adversary's choices consumed one per Get *)
+Fixpoint exec {A} (a : act A) (adv : list nat) (sh : shared) : shared * list nat * sum A fault :=
+  match a with
+  | Ret r => (sh, adv, inl r)
+  | Fail f => (sh, adv, inr f)
+  | Put p o k => exec k adv (sh_put sh p o)
+  | Get p k =>
+      let c := match adv with [] => 0 | c :: _ => c end in
+      let '(o, sh') := sh_get sh p c in
+      exec (k o) (tl adv) sh'
+  end.
+
+(* histories: operations and garbage collections, one goroutine *)
+Inductive hitem := HOp (o : op) | HGC.
+Fixpoint run_hist (h : list hitem) (adv : list nat) (sh : shared) : shared * list nat * list (sum out fault) :=
+  match h with
+  | [] => (sh, adv, [])
+  | HGC :: r => run_hist r adv (sh_gc sh)
+  | HOp o :: r =>
+      let '(sh1, adv1, res) := exec (op_prog o) adv sh in
+      let '(sh2, adv2, rest) := run_hist r adv1 sh1 in
+      (sh2, adv2, res :: rest)
+  end.
+(* the observation of an operation performed after history h *)
+Definition observe (h : list hitem) (adv : list nat) (o : op) : sum out fault :=
+  let '(sh, adv1, _) := run_hist h adv sh_init in
+  snd (exec (op_prog o) adv1 sh).
+
+(* ================================================================== *)
+(* goroutines and schedules                                           *)
+(* ================================================================== *)
+Record thread := {
+  t_cur : option (op * act out);      (* the running operation and what is left of it *)
+  t_todo : list op;
+  t_done : list (op * out);
+  t_fault : option fault
+}.
+Record machine := { m_sh : shared; m_threads : list thread }.
+
+(* one scheduler decision: goroutine t performs its next pool interaction (the adversary
+   choosing c if it is a Get), or the garbage collector runs *)
+Inductive sched := SRun (t : nat) (c : nat) | SGC.
+
+Definition thread_step (sh : shared) (c : nat) (th : thread) : shared * thread :=
+  match t_fault th with
+  | Some _ => (sh, th)
+  | None =>
+      match t_cur th with
+      | None =>
+          match t_todo th with
+          | [] => (sh, th)
+          | o :: r => (sh, {| t_cur := Some (o, op_prog o); t_todo := r; t_done := t_done th; t_fault := None |})
+          end
+      | Some (o, Ret r) => (sh, {| t_cur := None; t_todo := t_todo th; t_done := t_done th ++ [(o, r)]; t_fault := None |})
+      | Some (o, Fail f) => (sh, {| t_cur := t_cur th; t_todo := t_todo th; t_done := t_done th; t_fault := Some f |})
+      | Some (o, Put p x k) => (sh_put sh p x, {| t_cur := Some (o, k); t_todo := t_todo th; t_done := t_done th; t_fault := None |})
+      | Some (o, Get p k) =>
+          let '(x, sh') := sh_get sh p c in
+          (sh', {| t_cur := Some (o, k x); t_todo := t_todo th; t_done := t_done th; t_fault := None |})
+      end
+  end.
+
+Fixpoint upd_nth {A} (n : nat) (x : A) (l : list A) : list A :=
+  match n, l with
+  | _, [] => []
+  | O, _ :: r => x :: r
+  | S m, y :: r => y :: upd_nth m x r
+  end.
+
+Definition mstep (m : machine) (s : sched) : machine :=
+  match s with
+  | SGC => {| m_sh := sh_gc (m_sh m); m_threads := m_threads m |}
+  | SRun t c =>
+      match nth_error (m_threads m) t with
+      | None => m
+      | Some th =>
+          let '(sh', th') := thread_step (m_sh m) c th in
+          {| m_sh := sh'; m_threads := upd_nth t th' (m_threads m) |}
+      end
+  end.
+Definition mrun (m : machine) (sc : list sched) : machine := fold_left mstep sc m.
+Definition minit (progs : list (list op)) : machine :=
+  {| m_sh := sh_init;
+     m_threads := map (fun p => {| t_cur := None; t_todo := p; t_done := []; t_fault := None |}) progs |}.
+
+(* ================================================================== *)
+(* wire                                                               *)
+(* ================================================================== *)
+(* A case:  (kind probe fresh hist adv aprobe)
+     kind   0 = the probe is a JSON ioCore.Write of a generated encoder case (the case text is kept
+                for the replay; rendering such lines is C01's subject), 1 = a console / Logger probe
+     probe  the encoder case, resp. a label
+     fresh  bytes the probe produced in a fresh state (right after two GCs; also in a fresh process)
+     hist   the (last <= 40 operations of the) history that preceded the observed probe, abstracted
+            to the pooled operations of this model: (k a b c d e f)   k: 0 JSON write, 1 console
+            write, 2 With, 3 Logger call, 4 zap.Stack, 5 GC; a plain fields, b reflected ok,
+            c reflected failing, d namespaces, e error-group size, f flags/depth
+     adv    the adversary's choices for the model run
+     aprobe the observed probe, abstracted the same way
+   observation: (line)
+   The model's observation is the fresh-state line, carried as an oracle, provided the pooled model
+   run (history, then probe, against the probe in the initial state) shows no fault and no
+   difference. *)
+Definition kx : bytes := [x6b].
+Definition vx : bytes := [x76].
+Definition wire_cfg : ecfg :=
+  {| c_msg := [x6d]; c_lvl := [x6c]; c_name := [x6e]; c_caller := [x63]; c_stack := [x73]; c_le := [NL]; c_sep := [TAB] |}.
+Definition wire_enc (sp : bool) : enc := {| e_cfg := wire_cfg; e_spaced := sp; e_ns := 0; e_buf := [] |}.
+Definition wire_ent : entry := {| en_lvl := [x69]; en_name := [x6e]; en_msg := [x6d]; en_stack := []; en_caller := None |}.
+
+Definition mk_fields (a b c d e f : nat) : list pf :=
+  repeat (PStr kx vx) a ++ repeat (PRefl kx (ROk vx)) b ++ repeat (PRefl kx (RErr vx)) c ++
+  (match e with 0 => [] | _ => [PErr kx vx (repeat vx e); PErrs kx (repeat vx e)] end) ++
+  (if Nat.odd f then [PObj kx [PNs kx; PRefl kx (ROk vx); PStr kx vx] (Some vx)] else []) ++
+  repeat (PNs kx) d.
+
+Definition dec_hitem (s : sx) : hitem :=
+  let n i := sx_n (sx_nth s i) in
+  let fs := mk_fields (n 1) (n 2) (n 3) (n 4) (n 5) (n 6) in
+  match n 0 with
+  | 0 => HOp (OWrite {| co_enc := wire_enc false; co_console := false; co_fail := false |} wire_ent fs)
+  | 1 => HOp (OWrite {| co_enc := wire_enc true; co_console := true; co_fail := false |} wire_ent fs)
+  | 2 => HOp (OWith (wire_enc (Nat.odd (n 6))) fs)
+  | 3 => HOp (OLog {| l_cores := [{| co_enc := wire_enc false; co_console := false; co_fail := false |};
+                                  {| co_enc := wire_enc true; co_console := true; co_fail := Nat.odd (n 6) |}];
+                      l_hook := None; l_errout := true; l_caller := Nat.odd (n 6 / 2); l_stack := Nat.odd (n 6 / 4) |}
+                   wire_ent (seq 1 (n 6 / 8)) fs)
+  | 4 => HOp (OTake (seq 1 (n 6)))
+  | _ => HGC
+  end.
+
+Definition out_bytes (o : out) : bytes :=
+  match o with
+  | OutBytes b => b
+  | OutEnc e => e_buf e
+  | OutEvents l => concat (map (fun ev => match ev with SinkWrite _ b => b | ErrOut => [x45] | Hook _ => [x48] | Reuse => [x52] end) l)
+  end.
+
+(* run the pooled model: the probe after the history and in the initial state give the same
+   bytes and nothing faults *)
+Definition machine_ok (hist : list hitem) (adv : list nat) (probe : hitem) : bool :=
+  match probe with
+  | HGC => true
+  | HOp o =>
+      match observe hist adv o, observe [] [] o with
+      | inl a, inl b => bytes_eqb (out_bytes a) (out_bytes b)
+      | _, _ => false
+      end
+  end.
+
+Definition w_fresh (i : sx) : bytes := sx_b (sx_nth i 2).
+Definition model (i : sx) : sx :=
+  if machine_ok (map dec_hitem (sx_l (sx_nth i 3))) (map sx_n (sx_l (sx_nth i 4))) (dec_hitem (sx_nth i 5))
+  then SL [SB (w_fresh i)]
+  else SL [SZ (-1)].
+(* the property's oracle: the probe's bytes after the history are its fresh-state bytes *)
+Definition spec (i o : sx) : bool := sx_eqb o (SL [SB (w_fresh i)]).
